@@ -397,6 +397,40 @@ pub fn decode_spec(t: &mut Tape, p: &Profile) -> GraphSpec {
         let variant = if huge { 1 + t.below(3) } else if wide { t.below(7) } else { 0 };
         let wide_shape = wide;
         let (wide, variant) = if fan_medium { (true, 1 + t.below(2)) } else { (wide, variant) };
+        // "brooms" (half of the medium fans with >= 12 functions): two to four
+        // separate components, each a chain of 0..=4 functions that ends in a fan-out
+        // (or, mirrored, a fan-in that ends in a chain).  The generations of such a
+        // graph are narrow where another component's are wide, so under a limit the
+        // functions waiting for a slot come from generations that are far apart.
+        let brooms = fan_medium && n >= 12 && t.chance(1, 2);
+        if brooms {
+            let mut order: Vec<usize> = (0..n).collect();
+            order.sort_by_key(|v| pos[*v]);
+            let parts = 2 + t.below(3);
+            let mirrored = t.chance(1, 2);
+            let mut start = 0;
+            for part in 0..parts {
+                let left = n - start;
+                let size = if part + 1 == parts { left } else { (left / (parts - part)).max(1) + t.below(3).min(left.saturating_sub(1)) };
+                let size = size.min(left);
+                if size == 0 {
+                    break;
+                }
+                let members = &order[start..start + size];
+                start += size;
+                let chain = t.below(5).min(size - 1);
+                let mut e: Vec<(usize, usize)> = vec![];
+                for i in 0..chain {
+                    e.push((members[i], members[i + 1]));
+                }
+                for v in &members[chain + 1..] {
+                    e.push((members[chain], *v));
+                }
+                for (a, b) in e {
+                    edges.push(if mirrored { (b, a, kind(t)) } else { (a, b, kind(t)) });
+                }
+            }
+        } else
         if wide && (variant == 3 && huge || variant == 4) {
             // data-only fan-in / fan-out: every function reads type 0 except one
             // writer (last or first in insertion order); no user edges at all
